@@ -1468,7 +1468,7 @@ def run(ctx):
         "dispatch": dstats,
         "dispatch_tables": cfg,
         "scaling_top": scaling[:15],
-        "time_limit": "CPU time of the child process during the call: 2 s + 100 ms/KiB, at most 60 s (LoadProgramFile: 8 s + 200 ms/KiB, at most 240 s); wall-clock fallback 25x; memory: RLIMIT_AS %d GiB, GOMEMLIMIT %s" % (MEM_LIMIT >> 30, GOMEMLIMIT),
+        "time_limit": "CPU time of the child process during the call: 2 s + 100 ms/KiB, at most 60 s (LoadProgramFile: 8 s + 200 ms/KiB, at most 240 s); wall-clock fallback 100x; memory: RLIMIT_AS %d GiB, GOMEMLIMIT %s" % (MEM_LIMIT >> 30, GOMEMLIMIT),
         "timing": timing,
         "seeds": {k: len(v) for k, v in seeds.by_lang.items()},
     }
